@@ -11,6 +11,12 @@
 #include <string.h>
 #include <pthread.h>
 
+#ifdef IOWOW_VERIF
+#include "iwverif_exec.h"
+#else
+#define IWVERIF_EV(k_, o_, a_)
+#endif
+
 struct _task {
   iwtp_task_f fn;
   void       *arg;
@@ -71,6 +77,7 @@ iwrc iwtp_schedule(struct iwtp *tp, iwtp_task_f fn, void *arg) {
     tp->tail = task;
   }
   ++tp->queue_size;
+  IWVERIF_EV(7, tp, arg);
 
   if (  tp->queue_size > 1
      && tp->num_threads_busy >= tp->num_threads
@@ -132,6 +139,7 @@ static void* _worker_fn(void *op) {
         tp->tail = 0;
       }
       --tp->queue_size;
+      IWVERIF_EV(8, tp, arg);
       free(h);
     }
     pthread_mutex_unlock(&tp->mtx);
